@@ -13,23 +13,32 @@ Definition resolve (e : env) (s : schema) : schema :=
   | s' => s'
   end.
 
-(* _get_name_and_record_counts_from_union *)
-Definition count_named (bs : list schema) : Z :=
-  len (filter (fun b => match strip b with SRecord _ _ _ | SEnum _ _ _ _ | SFixed _ _ _ | SRef _ => true | _ => false end) bs).
-Definition count_records (bs : list schema) : Z :=
-  len (filter (fun b => match strip b with SRecord _ _ _ | SRef _ => true | _ => false end) bs).
+(* the named type a union branch denotes (inline definition or by-name reference looked up in the table): its full name and
+   whether it is a record.  (A name missing from the table cannot occur for a parsed schema; the counting helper then
+   "assumes it is or could be a record".) *)
+Definition branch_kind (e : env) (b : schema) : option (str * bool) :=
+  match resolve e b with
+  | SRecord n _ _ => Some (n, true)
+  | SEnum n _ _ _ | SFixed n _ _ => Some (n, false)
+  | SRef n => Some (n, true)
+  | _ => None
+  end.
 
-Definition wrap_union (o : ropts) (bs : list schema) (b : schema) (result : pyval) : pyval :=
-  let named_dict := match strip b with SRecord n _ _ | SEnum n _ _ _ | SFixed n _ _ => Some n | _ => None end in
-  let record_dict := match strip b with SRecord n _ _ => Some n | _ => None end in
-  let ref := match strip b with SRef n => Some n | _ => None end in
+(* _get_name_and_record_counts_from_union(schema, named_schemas) *)
+Definition count_named (e : env) (bs : list schema) : Z :=
+  len (filter (fun b => match branch_kind e b with Some _ => true | None => false end) bs).
+Definition count_records (e : env) (bs : list schema) : Z :=
+  len (filter (fun b => match branch_kind e b with Some (_, true) => true | _ => false end) bs).
+
+(* read_union's wrapping of the value (return_named_type[_override], return_record_name[_override]); since fix 16a5a2c the
+   decision looks at the DEFINITION of a by-name branch *)
+Definition wrap_union (o : ropts) (e : env) (bs : list schema) (b : schema) (result : pyval) : pyval :=
+  let k := branch_kind e b in
   let pair n := PTuple [PStr n; result] in
-  if ret_named_override o && (count_named bs =? 1) then result
-  else match (if ret_named o then named_dict else None) with Some n => pair n | None =>
-  match (if ret_named o then ref else None) with Some n => pair n | None =>
-  if ret_rec_override o && (count_records bs =? 1) then result
-  else match (if ret_rec o then record_dict else None) with Some n => pair n | None =>
-  match (if ret_rec o then ref else None) with Some n => pair n | None => result end end end end.
+  if ret_named_override o && (count_named e bs =? 1) then result
+  else match (if ret_named o then k else None) with Some (n, _) => pair n | None =>
+  if ret_rec_override o && (count_records e bs =? 1) then result
+  else match (if ret_rec o then k else None) with Some (n, true) => pair n | _ => result end end.
 
 Fixpoint py_of (o : ropts) (e : env) (s : schema) (a : aval) {struct a} : option pyval :=
   match resolve e s, a with
@@ -54,7 +63,7 @@ Fixpoint py_of (o : ropts) (e : env) (s : schema) (a : aval) {struct a} : option
                        end) l [])
   | SUnion bs, AUnion i x =>
       match nthZ bs i with
-      | Some b => match py_of o e b x with Some v => Some (wrap_union o bs b v) | None => None end
+      | Some b => match py_of o e b x with Some v => Some (wrap_union o e bs b v) | None => None end
       | None => None
       end
   | SRecord _ _ fs, ARecord l =>
